@@ -21,7 +21,9 @@ import (
 	"fmt"
 	"os"
 	"path/filepath"
+	"sort"
 	"strings"
+	"sync"
 	"sync/atomic"
 
 	"github.com/nspcc-dev/neofs-node/pkg/local_object_storage/blobstor/common"
@@ -344,11 +346,12 @@ type sys struct {
 	// first operation after which the on-disk state differed from the baseline, and how
 	changedBy  string
 	changeDiff []string
-	dir      string
-	base     sw.State // byte-level persistent state of THIS instance right after the mode switch
-	wcb      string   // write-cache accounting at that moment
-	fp       string
-	msg      string
+	faultFired bool // the entry fault was actually hit during the entry switch
+	dir        string
+	base       sw.State // byte-level persistent state of THIS instance right after the mode switch
+	wcb        string   // write-cache accounting at that moment
+	fp         string
+	msg        string
 }
 
 func (c *config) newSys() *sys {
@@ -398,6 +401,17 @@ func (c *config) newSys() *sys {
 		}
 	}
 	err = w.SetMode(c.Mode)
+	// did the armed fault fire at all? (if not, this entry is the clean one again)
+	switch c.Entry {
+	case eBlobWrite:
+		s.faultFired = s.fs.WriteFailures > 0
+	case eBlobInit:
+		s.faultFired = s.fs.FailInit == nil
+	case eMetaOpen:
+		s.faultFired = !s.metaFail.Load()
+	default:
+		s.faultFired = true
+	}
 	s.fs.ArmWrites(nil)
 	s.fs.Arm(nil, nil, nil, nil)
 	s.metaFail.Store(false)
@@ -476,7 +490,7 @@ func (s *sys) Apply(i int) (string, bool) {
 			s.msg = fmt.Sprintf("%s: %s returned %s (%v)", s.c.name(), o.Name, cls, err)
 		}
 	case err != nil:
-		s.fp = "background-or-read-op-failed:" + o.Name
+		s.fp = "background-or-read-op-failed:" + o.Name + ":mode=" + modeName(s.mode) + ":" + s.c.entryClass()
 		s.msg = fmt.Sprintf("%s: %s: %v", s.c.name(), o.Name, err)
 	}
 	return cls, true
@@ -509,7 +523,24 @@ func getClass(o *object.Object, err error, want []byte) string {
 	}
 }
 
+var (
+	fpMu  sync.Mutex
+	fpAll = map[string]string{}
+)
+
 func (s *sys) Check() (string, string) {
+	fp, what := s.check()
+	if fp != "" {
+		fpMu.Lock()
+		if old, ok := fpAll[fp]; !ok || len(what) < len(old) {
+			fpAll[fp] = what
+		}
+		fpMu.Unlock()
+	}
+	return fp, what
+}
+
+func (s *sys) check() (string, string) {
 	c := s.c
 	if m := s.w.Sh.GetMode(); m != s.mode {
 		return "mode-changed", fmt.Sprintf("%s: shard now reports %s", c.name(), m)
@@ -605,11 +636,14 @@ func main() {
 	}
 
 	var cfgs []*config
+	notFired := 0
 	var notReached []string // failed entry switch left the shard reporting a writable mode: premise not established
 	for img := range images {
 		for _, wc := range []bool{false, true} {
 			for _, m := range []mode.Mode{mode.ReadOnly, mode.DegradedReadOnly} {
-				for e := 0; e < nEntries; e++ {
+				// configured-mode shards first: their components stay read-write, nothing but the
+				// shard-level checks protects the data there
+				for _, e := range []int{eConfig, eClean, eBlobWrite, eBlobInit, eMetaOpen, eWCDir} {
 					if e == eWCDir && !wc {
 						continue
 					}
@@ -626,6 +660,10 @@ func main() {
 		c.premise = s.mode.ReadOnly()
 		if !c.premise {
 			notReached = append(notReached, c.name())
+		} else if c.Entry != eClean && c.Entry != eConfig && !s.faultFired {
+			// the switch never touched the failing call: same history as the clean entry
+			c.premise = false
+			notFired++
 		}
 		st, err := sw.SnapState(s.dir)
 		if err != nil {
@@ -681,12 +719,24 @@ func main() {
 		obs += res.ObsClasses
 		r.Set("states:"+c.name(), res.States)
 	}
+	var fps []string
+	for k := range fpAll {
+		fps = append(fps, k)
+	}
+	sort.Strings(fps)
+	r.Set("violation_classes", fps)
+	if os.Getenv("C14_LIST") != "" {
+		for _, k := range fps {
+			fmt.Fprintf(os.Stderr, "CLASS %s\n   e.g. %.400s\n", k, fpAll[k])
+		}
+	}
 	r.Set("fixpoint_reached", fix)
 	r.Set("configurations_explored", run)
 	r.Set("configurations_where_failed_entry_left_a_writable_mode", len(notReached))
+	r.Set("configurations_where_the_entry_fault_was_never_hit", notFired)
 	r.Set("distinct_observation_classes", obs)
 	r.Exhaustive(exhaustive)
-	r.Rule(fmt.Sprintf("%d configurations = 3 pre-populated images (plain; pending GC work: tombstoned/expired/locked/garbage-marked objects; containers marked for removal) x write-cache off/on (cached + flushed objects) x {read-only, degraded-read-only} x entry {clean SetMode from read-write, SetMode with blobstor writes failing, blobstor init failing, metabase open failing, write-cache directory unopenable}; a configuration is explored iff the shard REPORTS a read-only mode after the entry switch (otherwise the premise is not established; counted); BFS over %d operations (12 mutating APIs, GC pass, 2 epoch events with an unpaid container, flush tick, dump) until no new state appears (fixpoint=%v); state = byte-level on-disk state + write-cache accounting + GC epochs; oracle after every transition", len(cfgs), len(ops), fix))
+	r.Rule(fmt.Sprintf("%d configurations = 4 pre-populated images (plain; pending GC work: tombstoned/expired/locked/garbage-marked objects and an expiring tombstone; containers marked for removal with their objects still there; a removed container whose objects were already collected, only its metadata pending) x write-cache off/on (cached + flushed objects) x {read-only, degraded-read-only} x entry {shard STARTED in the mode via shard.WithMode after being populated in read-write and closed; clean SetMode from read-write; SetMode with blobstor writes failing, blobstor init failing, metabase open failing, write-cache directory unopenable}; a configuration is explored iff the shard REPORTS a read-only mode afterwards and, for the failing entries, the fault was actually hit (otherwise it is the clean entry again; counted); BFS over %d operations (12 mutating APIs, GC pass, 2 epoch events with an unpaid container, flush tick, dump) until no new state appears (fixpoint=%v); state = byte-level on-disk state + write-cache accounting + GC epochs; oracle after every transition", len(cfgs), len(ops), fix))
 	r.Assume("background jobs are run synchronously through the injected wrappers (same functions the goroutines call); the write-cache flush ticker is virtual and fired by the harness",
 		"single-threaded histories: no concurrency between requests and background jobs",
 		"the mode error of a mutating request is shard.ErrReadOnlyMode (read-only) or shard.ErrReadOnlyMode/ErrDegradedMode (degraded-read-only), the identities the engine dispatches on")
